@@ -602,3 +602,271 @@ theorem distributeSurplus_batteries (ops : BatOps α B) (env : StratEnv α) (w w
     exact key w.vehicles (w, []) (w', cmds') h
 
 end SpiceEv
+
+namespace SpiceEv
+variable {α B : Type} [Field α] [LinearOrder α] [IsStrictOrderedRing α]
+
+/-! ### stations -/
+
+def StationInv (w : World α B) : Prop := ∀ s ∈ w.stations, s.currentPower ≤ s.maxPower
+
+theorem station?_some (w : World α B) (id : String) (s : StationS α) (h : w.station? id = some s) :
+    s ∈ w.stations ∧ s.id = id := by
+  unfold World.station? at h
+  exact ⟨List.mem_of_find?_eq_some h, by simpa using List.find?_some h⟩
+
+theorem mem_setStation (w : World α B) (s' s : StationS α) (h : s ∈ (w.setStation s').stations) :
+    s = s' ∨ s ∈ w.stations := by
+  unfold World.setStation at h
+  simp only [List.mem_map] at h
+  obtain ⟨x, hx, rfl⟩ := h
+  by_cases hid : (x.id == s'.id) = true
+  · left; simp [hid]
+  · right; simp [hid, hx]
+
+@[simp] theorem setVehicle_stations (w : World α B) (v : VehicleS α B) :
+    (w.setVehicle v).stations = w.stations := rfl
+@[simp] theorem setGc_stations (w : World α B) (g : GcS α) : (w.setGc g).stations = w.stations := rfl
+@[simp] theorem setBattery_stations (w : World α B) (b : StatBatS α B) :
+    (w.setBattery b).stations = w.stations := rfl
+
+theorem clampPower_station (p cur mx mn vm : α) (h : cur ≤ mx) :
+    cur + clampPower p cur mx mn vm ≤ mx := by
+  unfold clampPower
+  simp only [pymin_eq, pymax_eq]
+  split
+  · simpa using h
+  · rcases le_total (min p (mx - cur)) 0 with h0 | h0
+    · rw [max_eq_right h0]; simpa using h
+    · rw [max_eq_left h0]
+      have := min_le_right p (mx - cur)
+      linarith
+
+/-- the offered power fits into the station -/
+theorem planPower_station (rule : Rule) (ops : BatOps α B) (env : StratEnv α) (cheap : Bool)
+    (left availGc : α) (cs : StationS α) (v : VehicleS α B) (power : α) (used : Bool)
+    (hcs : cs.currentPower ≤ cs.maxPower)
+    (h : planPower rule ops env cheap left availGc cs v = .ok (power, used)) :
+    cs.currentPower + power ≤ cs.maxPower := by
+  unfold planPower at h
+  simp only at h
+  split at h
+  · simp only [Except.ok.injEq, Prod.mk.injEq] at h
+    obtain ⟨rfl, _⟩ := h
+    exact clampPower_station _ _ _ _ _ hcs
+  · split at h
+    · cases rule with
+      | greedy =>
+        simp only [Except.ok.injEq, Prod.mk.injEq] at h
+        obtain ⟨rfl, _⟩ := h
+        exact clampPower_station _ _ _ _ _ hcs
+      | balanced =>
+        simp only at h
+        split at h
+        · cases h
+        · split at h <;>
+          · simp only [Except.ok.injEq, Prod.mk.injEq] at h
+            obtain ⟨rfl, _⟩ := h
+            exact clampPower_station _ _ _ _ _ hcs
+    · simp only [Except.ok.injEq, Prod.mk.injEq] at h
+      obtain ⟨rfl, _⟩ := h
+      simpa using hcs
+
+theorem allocVehicle_station (rule : Rule) (ops : BatOps α B) (law : BatLaw ops) (env : StratEnv α)
+    (st st' : World α B × List (String × α) × List (String × α)) (vid : String)
+    (hinv : StationInv st.1)
+    (h : allocVehicle rule ops env st vid = .ok st') : StationInv st'.1 := by
+  unfold allocVehicle at h
+  split at h
+  · cases h
+  · rename_i v hv
+    split at h
+    · simp only [Except.ok.injEq] at h; subst h; exact hinv
+    · rename_i csId hcs
+      split at h
+      · cases h
+      · rename_i cs hst
+        obtain ⟨hsm, _⟩ := station?_some _ _ cs hst
+        split at h
+        · cases h
+        · rename_i gc hgc
+          simp only [bind, Except.bind] at h
+          split at h
+          · cases h
+          · rename_i cheap hch
+            split at h
+            · cases h
+            · rename_i pu hpl
+              obtain ⟨power, used⟩ := pu
+              split at h
+              · cases h
+              · rename_i ba hcc
+                obtain ⟨bat', avg⟩ := ba
+                simp only [Except.ok.injEq] at h
+                subst h
+                have hp0 := (planPower_bound rule ops env cheap _ _ cs v power used hpl).1
+                have hfit := planPower_station rule ops env cheap _ _ cs v power used (hinv cs hsm) hpl
+                obtain ⟨_, hap⟩ := chargeCall_bound rule ops law env cheap v power hp0 bat' avg hcc
+                intro s hs
+                rcases mem_setStation _ _ s hs with rfl | hs'
+                · show cs.currentPower + avg ≤ cs.maxPower
+                  linarith
+                · simp only [setGc_stations, setVehicle_stations] at hs'
+                  exact hinv s hs'
+
+theorem allocFold_station (rule : Rule) (ops : BatOps α B) (law : BatLaw ops) (env : StratEnv α)
+    (ids : List String) (st st' : World α B × List (String × α) × List (String × α))
+    (hinv : StationInv st.1)
+    (h : ids.foldlM (allocVehicle rule ops env) st = .ok st') : StationInv st'.1 := by
+  induction ids generalizing st with
+  | nil =>
+    simp only [List.foldlM_nil, pure, Except.pure, Except.ok.injEq] at h
+    subst h; exact hinv
+  | cons id rest ih =>
+    simp only [List.foldlM_cons, bind, Except.bind] at h
+    split at h
+    · cases h
+    · rename_i st1 hs
+      exact ih st1 (allocVehicle_station rule ops law env st st1 id hinv hs) h
+
+end SpiceEv
+
+namespace SpiceEv
+variable {α B : Type} [Field α] [LinearOrder α] [IsStrictOrderedRing α]
+
+theorem surplusVehicle_station (ops : BatOps α B) (law : BatLaw ops) (env : StratEnv α)
+    (cheap : List (String × Bool)) (w w' : World α B) (cmds cmds' : List (String × α))
+    (v : VehicleS α B) (hinv : StationInv w)
+    (h : surplusVehicle ops env cheap w cmds v = .ok (w', cmds')) : StationInv w' := by
+  unfold surplusVehicle at h
+  split at h
+  · simp only [Except.ok.injEq, Prod.mk.injEq] at h; obtain ⟨rfl, _⟩ := h; exact hinv
+  · split at h
+    · cases h
+    · rename_i cs hst
+      obtain ⟨hsm, _⟩ := station?_some _ _ cs hst
+      split at h
+      · cases h
+      · rename_i gc hgc
+        simp only at h
+        split at h
+        · simp only [bind, Except.bind] at h
+          split at h
+          · cases h
+          · rename_i ba hl
+            obtain ⟨bat', avg⟩ := ba
+            simp only [Except.ok.injEq, Prod.mk.injEq] at h
+            obtain ⟨rfl, _⟩ := h
+            obtain ⟨_, hap⟩ := law.load_max _ _ _ _ hl
+            have hc := clampPower_bounds (-gc.currentLoad) cs.currentPower cs.maxPower cs.minPower
+              v.minChargingPower
+            rw [max_eq_left hc.1] at hap
+            have hfit := clampPower_station (-gc.currentLoad) cs.currentPower cs.maxPower cs.minPower
+              v.minChargingPower (hinv cs hsm)
+            intro s hs
+            rcases mem_setStation _ _ s hs with rfl | hs'
+            · show cs.currentPower + avg ≤ cs.maxPower
+              linarith
+            · simp only [setGc_stations, setVehicle_stations] at hs'
+              exact hinv s hs'
+        · split at h
+          · simp only [bind, Except.bind] at h
+            split at h
+            · cases h
+            · rename_i ba hl
+              obtain ⟨bat', avg⟩ := ba
+              simp only [Except.ok.injEq, Prod.mk.injEq] at h
+              obtain ⟨rfl, _⟩ := h
+              obtain ⟨ha0, _⟩ := law.unload_max _ _ _ _ _ hl
+              intro s hs
+              rcases mem_setStation _ _ s hs with rfl | hs'
+              · show cs.currentPower - avg ≤ cs.maxPower
+                have := hinv cs hsm
+                linarith
+              · simp only [setGc_stations, setVehicle_stations] at hs'
+                exact hinv s hs'
+          · simp only [Except.ok.injEq, Prod.mk.injEq] at h; obtain ⟨rfl, _⟩ := h; exact hinv
+
+theorem distributeSurplus_station (ops : BatOps α B) (law : BatLaw ops) (env : StratEnv α)
+    (w w' : World α B) (cmds' : List (String × α)) (hinv : StationInv w)
+    (h : distributeSurplus ops env w = .ok (w', cmds')) : StationInv w' := by
+  unfold distributeSurplus at h
+  simp only [bind, Except.bind] at h
+  split at h
+  · cases h
+  · rename_i cheap _
+    have key : ∀ (vs : List (VehicleS α B)) (st st' : World α B × List (String × α)),
+        StationInv st.1 →
+        vs.foldlM (fun (st : World α B × List (String × α)) v0 =>
+          match st.1.vehicle? v0.id with
+          | none => Except.ok st
+          | some v => surplusVehicle ops env cheap st.1 st.2 v) st = .ok st' →
+        StationInv st'.1 := by
+      intro vs
+      induction vs with
+      | nil =>
+        intro st st' h1 h3
+        simp only [List.foldlM_nil, pure, Except.pure, Except.ok.injEq] at h3
+        subst h3; exact h1
+      | cons v0 rest ih =>
+        intro st st' h1 h3
+        simp only [List.foldlM_cons, bind, Except.bind] at h3
+        split at h3
+        · cases h3
+        · rename_i st1 hst1
+          split at hst1
+          · simp only [Except.ok.injEq] at hst1
+            subst hst1
+            exact ih _ _ h1 h3
+          · obtain ⟨w1, c1⟩ := st1
+            exact ih _ _ (surplusVehicle_station ops law env cheap st.1 w1 st.2 c1 _ h1 hst1) h3
+    exact key w.vehicles (w, []) (w', cmds') hinv h
+
+theorem updateBatteries_stations (ops : BatOps α B) (env : StratEnv α) (w w' : World α B)
+    (h : updateBatteries ops env w = .ok w') : w'.stations = w.stations := by
+  unfold updateBatteries at h
+  simp only [bind, Except.bind] at h
+  split at h
+  · cases h
+  · rename_i cheap _
+    have key : ∀ (bs : List (StatBatS α B)) (w w' : World α B),
+        bs.foldlM (fun w b0 =>
+          match w.batteries.find? (·.id == b0.id) with
+          | none => Except.ok w
+          | some b => updateBattery ops env cheap w b) w = .ok w' → w'.stations = w.stations := by
+      intro bs
+      induction bs with
+      | nil =>
+        intro w w' h3
+        simp only [List.foldlM_nil, pure, Except.pure, Except.ok.injEq] at h3
+        subst h3; rfl
+      | cons b0 rest ih =>
+        intro w w' h3
+        simp only [List.foldlM_cons, bind, Except.bind] at h3
+        split at h3
+        · cases h3
+        · rename_i w1 hw1
+          rw [ih w1 w' h3]
+          split at hw1
+          · simp only [Except.ok.injEq] at hw1; subst hw1; rfl
+          · rename_i b hb
+            unfold updateBattery at hw1
+            split at hw1
+            · simp only [Except.ok.injEq] at hw1; subst hw1; rfl
+            · simp only [bind, Except.bind] at hw1
+              split at hw1
+              · cases hw1
+              · split at hw1
+                · split at hw1
+                  · cases hw1
+                  · simp only [Except.ok.injEq] at hw1; subst hw1; simp
+                · split at hw1
+                  · split at hw1
+                    · cases hw1
+                    · simp only [Except.ok.injEq] at hw1; subst hw1; simp
+                  · split at hw1
+                    · cases hw1
+                    · simp only [Except.ok.injEq] at hw1; subst hw1; simp
+    exact key w.batteries w w' h
+
+end SpiceEv
